@@ -147,8 +147,13 @@ func (f *faultGen) region(parent string, depth int) []Stmt {
 		call = CallN("pcall", Fn(nil, false, body))
 		g.cover("region:pcall")
 	} else {
-		call = CallN("xpcall", Fn(nil, false, body), Fn([]string{"m"}, false, Blk(
-			CallSN("step", Str(parent+":handler-of-"+id)), Return(N("m")))))
+		hb := Blk(CallSN("step", Str(parent+":handler-of-"+id)), Return(N("m")))
+		if f.opts.ModelSafe && g.R.Intn(4) == 0 {
+			// a message handler that fails by itself
+			hb = Blk(CallSN("step", Str(parent+":handler-of-"+id)), CallSN("error", Str("Ehandler")))
+			g.cover("region:xpcall-failing-handler")
+		}
+		call = CallN("xpcall", Fn(nil, false, body), &EFunc{F: &Func{Params: []string{"m"}, Body: hb}})
 		g.Fault.Xpcall[id] = true
 		g.cover("region:xpcall")
 	}
@@ -188,9 +193,22 @@ func (g *Gen) FaultProgram(opts FaultOpts) *Chunk {
 		CallSN("scrub", Num(24)),
 		CallSN("emit", Str("post:bump"), Call(N(bump)), Call(N(bump))),
 		// closures made inside (possibly failed) regions must still be callable
-		&SGenFor{Names: []string{"i", "fn"}, Exprs: []Expr{CallN("ipairs", N("FS"))}, Body: Blk(
-			Local1("okc", &EParen{X: CallN("pcall", N("fn"))}),
-			&SIf{Conds: []Expr{Un("not", N("okc"))}, Blocks: []*Block{Blk(CallSN("emit", Str("post:closure-failed"), N("i")))}})},
+		func() Stmt {
+			if opts.ModelSafe {
+				// with the reference interpreter as oracle the values the escaped closures see are comparable
+				return &SGenFor{Names: []string{"i", "fn"}, Exprs: []Expr{CallN("ipairs", N("FS"))}, Body: Blk(
+					CallSN("emit", Str("post:closure"), N("i"), CallN("pcall", N("fn"))))}
+			}
+			return &SGenFor{Names: []string{"i", "fn"}, Exprs: []Expr{CallN("ipairs", N("FS"))}, Body: Blk(
+				Local1("okc", &EParen{X: CallN("pcall", N("fn"))}),
+				&SIf{Conds: []Expr{Un("not", N("okc"))}, Blocks: []*Block{Blk(CallSN("emit", Str("post:closure-failed"), N("i")))}})}
+		}(),
+		Local1("co2", Call(Dot(N("coroutine"), "wrap"), Fn(nil, false, Blk(
+			&SCall{Call: CallN("pcall", N("error"), Str("Ex"))},
+			Local1("v", Call(Dot(N("coroutine"), "yield"), Num(1))),
+			&SCall{Call: CallN("xpcall", Fn(nil, false, Blk(CallSN("error", Str("Ey")))), Fn([]string{"m"}, false, Blk(Return(N("m")))))},
+			Return(Call(Dot(N("coroutine"), "yield"), Bin("+", N("v"), Num(1)))))))),
+		CallSN("emit", Str("post:co2"), &EParen{X: CallN("pcall", N("co2"))}, &EParen{X: CallN("pcall", N("co2"), Num(5))}, CallN("pcall", N("co2"), Num(7))),
 		Local1(co, Call(Dot(N("coroutine"), "wrap"), Fn([]string{"a"}, false, Blk(
 			Local1("b", Call(Dot(N("coroutine"), "yield"), Bin("+", N("a"), Num(1)))), Return(Bin("*", N("b"), Num(2))))))),
 		CallSN("emit", Str("post:co"), Call(N(co), Num(1)), Call(N(co), Num(10))),
